@@ -79,6 +79,8 @@ type World struct {
 	SchemaQ *graphql.Object
 	// MutateArgs makes every resolver scribble on its Args map after recording it
 	MutateArgs bool
+	// AllDeferred makes every successful resolver defer its value (and every list item)
+	AllDeferred bool
 }
 
 func New(g *gen.Schema) *World {
@@ -212,6 +214,19 @@ func (w *World) Resolve(typeName string, f *gen.FieldDef, p graphql.ResolveParam
 	o := w.decide(path)
 	c.Outcome = o
 	raw := func() interface{} { return model.RawValue(w.G, w, f.Type, path) }
+	if w.AllDeferred && o == model.OK {
+		// every value is handed over as a thunk, every list item as a thunk of its own
+		v := raw()
+		if l, ok := v.([]interface{}); ok {
+			items := make([]interface{}, len(l))
+			for i := range l {
+				e := l[i]
+				items[i] = func() (interface{}, error) { return e, nil }
+			}
+			v = items
+		}
+		return func() (interface{}, error) { return v, nil }, nil
+	}
 	switch o {
 	case model.OK:
 		return raw(), nil
